@@ -33,6 +33,11 @@ impl<F: Float, R: Rng + Clone> Transformer<Array2<F>, Result<Array2<F>>> for TSn
             None => usize::min(self.max_iter() / 2, 250),
         };
 
+        // bhtsne expects the samples row by row; an array in any other memory layout (e.g.
+        // column-major) is copied into standard layout first
+        if !data.is_standard_layout() {
+            data = data.as_standard_layout().into_owned();
+        }
         let data = data.as_slice_mut().unwrap();
 
         let mut rng = self.rng().clone();
